@@ -593,6 +593,38 @@ def local_sig(A, l, depth=0):
     return k
 
 
+def relevant_guards(A, s):
+    """guard signatures in force at the site that speak about the site's own operands: comparisons of an operand (index, length, arithmetic operand),
+    length facts about the indexed collection, variant facts about an unwrapped receiver. An audit is written knowing these tests; it is void without them."""
+    ops = [o for o in (s.ops or []) if isinstance(o, list)]
+    syms, roots = [], []
+    for o in ops:
+        try:
+            syms.append(A.sym(o))
+            roots.append(A.operand_root(o))
+            rg = A.range_operand(o)
+            if rg:
+                syms += [x for x in rg[:2] if x is not None]
+        except Exception:
+            pass
+
+    def mentions(x):
+        if x in syms:
+            return True
+        if isinstance(x, tuple) and x and x[0] == "add" and x[1] in syms:
+            return True
+        if isinstance(x, tuple) and x and x[0] == "len" and x[1] in roots:
+            return True
+        return any(isinstance(y, tuple) and y and y[0] == "add" and y[1] == x for y in syms)
+    out = set()
+    for f in A.facts_at(s.block):
+        if f[0] == "cmp" and (mentions(f[2]) or mentions(f[3])) and not (f[2][0] == "c" and f[3][0] == "c"):
+            out.add(guard_sig(f))
+        elif f[0] in ("len_eq", "len_gt", "len_notin", "variant") and f[1] in roots:
+            out.add(guard_sig(f))
+    return sorted(out)
+
+
 def site_opsig(A, s):
     """operand signature of a panic-capable site (the index/range/arithmetic operands, the receiver of unwrap, ...)"""
     ops = s.ops or []
